@@ -242,6 +242,12 @@ def run(ctx):
         for path in paths:
             if path.end != "ret" or path.ret is None:
                 continue
+            rv = path.ret
+            if rv[0] == "bin" and rv[1] in ("Eq", "Ne") and rv[2][0] == "discr" and rv[3][0] == "k" and not path.decisions:
+                # `matches!(line, DiffLine::X(_))` compiled to a comparison of the discriminant (optimised MIR)
+                for iv, nm in rv[2][2]:
+                    table.setdefault(nm, set()).add("true" if (int(iv) == int(rv[3][1])) == (rv[1] == "Eq") else "false")
+                continue
             kinds = [variant_name(v) for k, v in path.decisions if k.startswith("discr(")]
             for kd in kinds:
                 names = list(kd[1]) if isinstance(kd, tuple) and kd[0] == "other" else [kd]
